@@ -52,9 +52,9 @@ Proof.
   - exfalso. apply lookup_None_keys in L. apply L. rewrite <- K. eapply lookup_In_keys; eauto.
 Qed.
 
-Lemma leaf_set_mark it : hasflag (iflags (set_mark it)) LEAF_BIT = hasflag (iflags it) LEAF_BIT.
+Lemma leaf_set_mark it : noscan (set_mark it) = noscan it.
 Proof.
-  unfold set_mark. cbn [iflags]. apply hasflag_setflag_other; [apply MARK_nonneg|].
+  unfold noscan, set_mark. cbn [iflags isize]. f_equal. apply hasflag_setflag_other; [apply MARK_nonneg|].
   intros E. apply MARK_not_LEAF. auto.
 Qed.
 
@@ -80,7 +80,7 @@ Lemma scan_words_spec o a ws : forall its pend its' pend',
   (forall w, In w ws -> In w (keys its) -> is_marked its' w) /\
   (exists new, pend' = new ++ pend /\
      forall x it', lookup x its' = Some it' -> marked it' = true ->
-       hasflag (iflags it') LEAF_BIT = false -> is_marked its x \/ In (iwords it') new) /\
+       noscan it' = false -> is_marked its x \/ In (iwords it') new) /\
   (length pend' + count_unmarked its' <= length pend + count_unmarked its)%nat.
 Proof.
   induction ws as [|w r IH]; intros its pend its' pend' ND PS; cbn [scan_words].
@@ -98,7 +98,7 @@ Proof.
            assert (Lw : lookup w (update w (set_mark it) its) = Some (set_mark it))
              by (apply lookup_update_same; eapply lookup_In_keys; eauto).
            pose proof (count_unmarked_update w it its ND L Mk) as CU.
-           destruct (hasflag (iflags it) LEAF_BIT) eqn:Lf; intros E;
+           destruct (noscan it) eqn:Lf; intros E;
              destruct (IH _ _ _ _ ND1 PS1 E) as (X & Y & (new & Pn & Z0) & F).
            ++ split; [eapply mext_trans; eauto|]. split; [|split].
               ** intros w' [<-|I] K.
@@ -144,7 +144,7 @@ Qed.
 
 Definition J (seeds : list (list Z)) (its : list (Z * item)) (pend : list (list Z)) : Prop :=
   (forall r, In r seeds -> In r pend \/ closed its r) /\
-  (forall x it, lookup x its = Some it -> marked it = true -> hasflag (iflags it) LEAF_BIT = false ->
+  (forall x it, lookup x its = Some it -> marked it = true -> noscan it = false ->
      In (iwords it) pend \/ closed its (iwords it)).
 
 Lemma mark_loop_spec seeds fuel o a : forall pend its its',
@@ -197,7 +197,7 @@ Qed.
 Inductive reach (its : list (Z * item)) (seeds : list (list Z)) : Z -> Prop :=
 | reach_seed r a : In r seeds -> In a r -> In a (keys its) -> reach its seeds a
 | reach_step a b it : reach its seeds a -> lookup a its = Some it ->
-    hasflag (iflags it) LEAF_BIT = false -> In b (iwords it) -> In b (keys its) -> reach its seeds b.
+    noscan it = false -> In b (iwords it) -> In b (keys its) -> reach its seeds b.
 
 Lemma reach_marked its0 its' seeds a : mext its0 its' -> J seeds its' [] ->
   reach its0 seeds a -> is_marked its' a.
@@ -207,7 +207,7 @@ Proof.
   - destruct IH as (it' & L' & M').
     destruct X as [EK HX]. destruct (HX a it L) as (it2 & L2 & R2). rewrite L' in L2. inversion L2; subst it2.
     assert (W : iwords it' = iwords it) by (destruct R2 as [->|[_ ->]]; reflexivity).
-    assert (F' : hasflag (iflags it') LEAF_BIT = false).
+    assert (F' : noscan it' = false).
     { destruct R2 as [->|[_ ->]]; auto. now rewrite leaf_set_mark. }
     destruct (JI a it' L' M' F') as [[]|C]. apply C; [rewrite W; auto | now rewrite EK].
 Qed.
@@ -577,6 +577,15 @@ Proof.
     + destruct (C a H). split; [now apply land_lor_keep | now apply land_land_keep].
 Qed.
 
+Lemma reg_flags_unmarked flags size (f : option fin) : hasflag flags MARK_BIT = false ->
+  hasflag (reg_flags flags size f) MARK_BIT = false.
+Proof.
+  intros Mf. pose proof MARK_nonneg. pose proof LEAF_nonneg. pose proof FINALIZE_nonneg. unfold reg_flags.
+  assert (M1 : hasflag (if AUTO_LEAF_ON_REGISTER && (size <? WORD_SIZE) then setflag flags LEAF_BIT else flags) MARK_BIT = false).
+  { destruct (AUTO_LEAF_ON_REGISTER && (size <? WORD_SIZE)); auto. rewrite hasflag_setflag_other; auto. apply MARK_not_LEAF. }
+  destruct f; auto. rewrite hasflag_setflag_other; auto. apply MARK_not_FINALIZE.
+Qed.
+
 Lemma Inv_register stk p size flags f ws decl g : hasflag flags MARK_BIT = false ->
   Inv g -> Inv (register stk p size flags f ws decl g).
 Proof.
@@ -587,10 +596,7 @@ Proof.
     match goal with |- quiet' (if _ then step _ ?G else ?G) => assert (I1 : Inv G) end.
     { split; [now apply WF_reg_mid|]. destruct Q as (A & B & C). repeat split; auto.
       cbn. intros x [<-|I]; auto. cbn [snd]. unfold marked. cbn [iflags].
-      pose proof MARK_nonneg. pose proof LEAF_nonneg. pose proof FINALIZE_nonneg.
-      assert (M1 : hasflag (if size <? WORD_SIZE then setflag flags LEAF_BIT else flags) MARK_BIT = false).
-      { destruct (size <? WORD_SIZE); auto. rewrite hasflag_setflag_other; auto. apply MARK_not_LEAF. }
-      destruct f; auto. rewrite hasflag_setflag_other; auto. apply MARK_not_FINALIZE. }
+      now apply reg_flags_unmarked. }
     destruct (running _); [apply Inv_step; exact I1 | apply I1].
   - destruct (negb (flags =? bit ROOT_BIT)); auto. destruct f; auto.
 Qed.
@@ -674,7 +680,8 @@ Proof.
   - destruct (lookup ptr (items g)); [|now apply Inv_set_err].
     destruct (_ && _); [|now apply Inv_set_err]. unfold gc_realloc.
     destruct (newptr =? 0); auto. now apply Inv_reregister.
-  - destruct (lookup ptr (items g)); [|now apply Inv_set_err]. unfold gc_dealloc.
+  - destruct (lookup ptr (items g)); [|now apply Inv_set_err].
+    destruct (dealloc_ok _); [|now apply Inv_set_err]. unfold gc_dealloc.
     pose proof (Inv_unregister true ptr g I). destruct (ptr =? 0); auto. now apply Inv_add_log.
   - destruct (lookup ptr (items g)); [|now apply Inv_set_err]. now apply Inv_unregister.
   - destruct (_ && _); [|now apply Inv_set_err]. apply Inv_register; [apply root_bit_unmarked | exact I].
